@@ -16,6 +16,7 @@ var props = map[string]*kernel.Prop{
 	"C14": {ID: "C14", Engine: "lakesim", RunOne: runC14},
 	"C15": {ID: "C15", Engine: "lakesim", RunOne: runC15seq},
 	"C17": {ID: "C17", Engine: "lakesim", RunOne: runC17, PinBase: []string{"faults"}, Expand: expandC17},
+	"C19": {ID: "C19", Engine: "lakesim", RunOne: runC19},
 }
 
 func TestSim(t *testing.T) {
